@@ -366,6 +366,7 @@ class World:
         self.memo: dict[str, tuple] = {}
         self.trace: list = []
         self.pristine: PristineRef | None = None
+        self.last_data = None
         self.probe_before: dict[int, list] | None = None
         self.t0 = self.clock.now
         for i in range(len(plan["envs"])):
@@ -442,12 +443,21 @@ class World:
         return d
 
     def data(self, spec: dict, fault: dict | None, tag: str):
+        key = json.dumps({k: v for k, v in spec.items() if k != "reuse"}, sort_keys=True)
+        if (tag == "shared" and spec.get("reuse") and not fault and self.last_data is not None
+                and self.last_data[2] == key):
+            # the caller passes the very same objects again: a render that changed them in
+            # place shows here (the twin always gets freshly built data)
+            self.count("caller_data_reused")
+            return self.last_data[0], self.last_data[1]
         d = self.raw_data(spec)
         fail_at = fault["k"] if fault and fault["kind"] == "data_k" else None
-        ctl = DropCtl(tag, fail_at=fail_at)
+        ctl = DropCtl("d", fail_at=fail_at, exc=(fault or {}).get("exc", "InjectedFault"))
         w = wrap_data(d, spec.get("drops") or {"mode": "all"}, ctl)
         if spec.get("catalog"):
             w["translations"] = worlds.Catalog()
+        if tag == "shared" and not fault:
+            self.last_data = (w, ctl, key)
         return w, ctl
 
     def call(self, inst: Inst, step: dict, *, solo_sid: str | None = None):
@@ -476,7 +486,7 @@ class World:
                     raise
                 except BaseException as exc:  # noqa: BLE001
                     return canon_exc(exc), None
-            d, ctl = self.data(step["data"], fault, "d")
+            d, ctl = self.data(step["data"], fault, "shared" if inst is self.shared else "d")
             if step.get("mode", "s") == "s":
                 try:
                     return ("ok", common.norm(t.render(**d))), ctl
@@ -963,14 +973,18 @@ def gen_plan(seed: int, tier: str) -> dict:
             st = {"op": "render", "id": nid(), "h": hid, "mode": rng.choice("ssa"), "data": data_spec()}
             fr = rng.random()
             if fr < 0.12:
-                st["fault"] = {"kind": "data_k", "k": rng.randint(1, 12)}
+                st["fault"] = {"kind": "data_k", "k": rng.randint(1, 12),
+                               "exc": rng.choice(["InjectedFault", "InjectedFault", "KeyError", "TypeError", "LiquidTypeError"])}
             elif fr < 0.17:
                 st["fault"] = {"kind": "loader_j", "j": rng.randint(1, 4)}
             elif fr < 0.22 and st["mode"] == "a":
                 st["fault"] = {"kind": "cancel_j", "j": rng.randint(1, 10)}
             steps.append(st)
             if rng.random() < 0.5:  # render the same handle again straight away
-                steps.append({"op": "render", "id": nid(), "h": hid, "mode": rng.choice("sa"), "data": data_spec()})
+                ds = data_spec()
+                if rng.random() < 0.4 and not st.get("fault"):
+                    ds = dict(st["data"], reuse=True)  # same seed, and the SAME objects on the shared side
+                steps.append({"op": "render", "id": nid(), "h": hid, "mode": rng.choice("sa"), "data": ds})
         elif r < 0.60:
             steps.append({"op": "analyze", "id": nid(), "h": rng.choice(handles)[0]})
         elif r < 0.70:
@@ -1001,7 +1015,7 @@ def gen_plan(seed: int, tier: str) -> dict:
     for hid, _ in handles:
         steps.append({"op": "render", "id": nid(), "h": hid, "mode": "s", "data": data_spec()})
     return {"property": PROP, "seed": seed, "policy": rng.choice(simsched.POLICIES), "envs": envs, "steps": steps,
-            "pristine_ref": rng.random() < 0.3}
+            "pristine_ref": rng.random() < 0.5}
 
 
 class Engine:
